@@ -85,6 +85,12 @@ for trial in range(200):
     check("sorted(set difference) = ascending filter", keep == [i for i in range(n) if mask[i]])
     check("membership in a filter result = its condition", all((x in keep) == (0 <= x < n and bool(mask[x])) for x in range(-2, n + 2)))
     check("filtered enumerate keeps exactly the kept positions in order", [x for i, x in enumerate([[i] for i in range(n)]) if i in keep] == [[kk] for kk in keep])
+    # dense twins of the ghost row-sum algebra: np.diag(v) is the diagonal matrix of v with row sums v; (A + B) row sums add
+    Ad = rng.uniform(-1, 1, (n, n))
+    vd = rng.uniform(-1, 1, n)
+    Dd = np.diag(vd)
+    check("np.diag(v) dense", Dd.shape == (n, n) and all(Dd[i, j] == (vd[i] if i == j else 0) for i in range(n) for j in range(n)))
+    check("dense sum(axis=1) / row sums add", Ad.sum(axis=1).shape == (n,) and np.allclose((Ad + Dd).sum(axis=1), Ad.sum(axis=1) + vd))
     # dok item access
     K = dok_array((n, n))
     K[0, n - 1] += 1
